@@ -113,6 +113,12 @@ def vkey(prop, o):
     return "%s|%s|%s" % (prop, o.rule, o.key)
 
 
+# rules that enumerate constructs (one obligation per panic site / loop / allocation): when a helper is folded into its
+# callers the same constructs are enumerated there, so "absent in the view" means "judged in the callers".  For any
+# other rule an obligation that disappears in a view is NOT thereby established.
+SITE_RULES = {"R-PANIC", "R-LOOP", "R-ALLOC"}
+
+
 def run_property(prop, tier="quick", seed=0, explain=None):
     t0 = time.time()
     os.makedirs(EVID, exist_ok=True)
@@ -201,7 +207,7 @@ def run_property(prop, tier="quick", seed=0, explain=None):
                     o.ok = True
                     o.what += "  [holds with %s]" % ("newly extracted private helpers folded back" if view == "norm" else "private helpers inlined")
                     rescued += 1
-                elif alt is None and not o.key.startswith("floor:") and \
+                elif alt is None and not o.key.startswith("floor:") and o.rule in SITE_RULES and \
                         any(a in o.key or a.rsplit("::", 2)[-2] + "::" + a.rsplit("::", 1)[-1] in o.key for a in absorbed.get(o.cfg, ()) if "::" in a):
                     # about a construct inside a private helper that is inlined into all its callers: judged there
                     bad = moved_bad.get((o.cfg, o.rule), [])
